@@ -23,8 +23,6 @@ func init() {
 		},
 	}, ruleC16)
 	const p = "C16"
-	except(p, "C16.1", "hdf5.DatasetWriter.writeChunkedData#error-return(constructed error)#after-mutation",
-		"the 'unsupported offset size' exit needs a superblock whose OffsetSize is neither 8 nor 4; every superblock this writer creates or accepts for writing has OffsetSize 8, so the exit is unreachable after the chunks were written")
 	except(p, "C16.1", "hdf5.deleteCompactAttributeFromHeader#error-return(core.WriteObjectHeader)#after-mutation",
 		"the only change before this exit removes one message from the header, which makes it shorter; WriteObjectHeader refuses only headers that grew beyond the chunk limit, so it can fail here only through the file write itself")
 	for _, src := range []string{"core.EncodeAttributeInfoMessage", "writer.DenseAttributeWriter.WriteToFile", "core.EncodeAttributeInfoMessage)#after-mutation#2", "core.AddMessageToObjectHeader", "core.WriteObjectHeader"} {
@@ -407,6 +405,12 @@ func (c *Ctx) checkAtomicFailure(r *Result, rule string, fn *ssa.Function, isMut
 			}
 		}
 		construct := name + "#error-return(" + strings.Join(srcNames, "|") + ")"
+		if first != nil && c.needsOddOffsetSize(scope{fn: fn, bind: map[ssa.Value]ssa.Value{}}, ret, 0) {
+			// every superblock this writer creates or accepts for writing has OffsetSize 8: an exit that lies behind the false
+			// edge of `OffsetSize == 8` (here or in the failing helper) cannot be taken after the change
+			r.Hold(rule, construct+"#needs-offset-size-other-than-8", c.InstrPos(ret), "this exit is taken only for a superblock whose OffsetSize is not 8; the writer creates and accepts only 8-byte offsets")
+			continue
+		}
 		if first != nil {
 			r.Viol(rule, construct+"#after-mutation", c.InstrPos(ret), "this logical failure exit is reachable after state was changed / a structure was rewritten in place at "+c.InstrPos(first))
 		} else {
@@ -727,4 +731,72 @@ func init() {
 		r.Check(up && down, "C16.7", c.Name(fn)+"#refcount-message-follows-count", c.InstrPos(gate), "count > 1: message created/updated; count <= 1: an existing message is updated too (otherwise the rollback of a failed hard link leaves 2 on disk)")
 		r.Floor("C16.7", 1)
 	})
+}
+
+// needsOddOffsetSize: the failing return lies behind an edge on which Superblock.OffsetSize is known to differ from 8,
+// either in this body or - when the error is the result of a helper - in every failing return of that helper with the
+// helper's parameter bound to the OffsetSize load.
+func (c *Ctx) needsOddOffsetSize(sc scope, ret *ssa.Return, depth int) bool {
+	if depth > 2 {
+		return false
+	}
+	isOff := func(v ssa.Value) bool {
+		v = stripConv(sc.res(stripConv(v)))
+		k, _ := fieldLoadKey(v)
+		return k == "core.Superblock.OffsetSize"
+	}
+	for _, b := range sc.fn.Blocks {
+		ifi, ok := b.Instrs[len(b.Instrs)-1].(*ssa.If)
+		if !ok {
+			continue
+		}
+		bo, ok := ifi.Cond.(*ssa.BinOp)
+		if !ok || (bo.Op != token.EQL && bo.Op != token.NEQ) {
+			continue
+		}
+		k, isK := constInt(bo.Y)
+		if !isK || k != 8 || !isOff(bo.X) {
+			continue
+		}
+		not8 := b.Succs[1]
+		if bo.Op == token.NEQ {
+			not8 = b.Succs[0]
+		}
+		if edgeDominates(b, not8, ret.Block()) {
+			return true
+		}
+	}
+	idx := errResultIndex(sc.fn.Signature)
+	srcs := errorSources(retOperand(ret, idx))
+	if len(srcs) == 0 {
+		return false
+	}
+	for _, s := range srcs {
+		if s.Fresh || s.Call == nil {
+			return false
+		}
+		_, hs, ok := helperResult(sc, s.Call)
+		if !ok {
+			// helperResult needs a unique success value; only the binding is wanted here
+			callee := s.Call.Call.StaticCallee()
+			if callee == nil || callee.Blocks == nil || !inModule(fnPkgPath(callee)) || len(callee.Params) != len(s.Call.Call.Args) {
+				return false
+			}
+			bind := map[ssa.Value]ssa.Value{}
+			for i, a := range s.Call.Call.Args {
+				bind[callee.Params[i]] = sc.res(a)
+			}
+			hs = scope{fn: callee, bind: bind, call: s.Call}
+		}
+		ers := errorReturns(hs.fn)
+		if len(ers) == 0 {
+			return false
+		}
+		for _, er := range ers {
+			if !c.needsOddOffsetSize(hs, er, depth+1) {
+				return false
+			}
+		}
+	}
+	return true
 }
